@@ -58,7 +58,9 @@ func (c Case) key() string {
 	return c.Fn + "\x00" + c.Mode + "\x00" + strings.Join(c.Args, "\x00") + "\x01" + strings.Join(c.Bind, "\x00") + "\x01" + c.Pkg
 }
 
-func (c Case) call() Call { return Call{Fn: c.Fn, Mode: c.Mode, Args: c.Args, Bind: c.Bind, Pkg: c.Pkg} }
+func (c Case) call() Call {
+	return Call{Fn: c.Fn, Mode: c.Mode, Args: c.Args, Bind: c.Bind, Pkg: c.Pkg}
+}
 
 // ---------------------------------------------------------------------------------------------
 // Results obtained in batches are handed to Run through this table; a case that is not in it (a
@@ -364,11 +366,12 @@ func drive(t *testing.T, p h.Prop[Case], units [][]Case, workers int) bool {
 // ---------------------------------------------------------------------------------------------
 
 var (
-	call0 = h.Prop[Case]{Name: "call-0", Run: runCall}
-	call1 = h.Prop[Case]{Name: "call-1", Run: runCall}
-	call2 = h.Prop[Case]{Name: "call-2", Run: runCall}
-	calln = h.Prop[Case]{Name: "call-n", Run: runCall}
-	fmtP  = h.Prop[Case]{Name: "format", Run: runCall}
+	call0  = h.Prop[Case]{Name: "call-0", Run: runCall}
+	call1  = h.Prop[Case]{Name: "call-1", Run: runCall}
+	call1p = h.Prop[Case]{Name: "call-1-in-package", Run: runCall}
+	call2  = h.Prop[Case]{Name: "call-2", Run: runCall}
+	calln  = h.Prop[Case]{Name: "call-n", Run: runCall}
+	fmtP   = h.Prop[Case]{Name: "format", Run: runCall}
 )
 
 func modesOf(f FuncEntry) []string {
@@ -421,6 +424,7 @@ func TestC09(t *testing.T) {
 		"(bounds-grid also: every function without bound parameters but with two sequence-like required parameters x all pairs of their value sets, e.g. the bit-* functions x 20 bit-vectors of lengths 0 4 8 9 made by the reader, coerce, make-array adjustable and not); " +
 		"(printer-grid) exhaustive: 17 printer variables x 26 values (nil t small large negative wrong-typed) bound by let around 28 format calls and 8 printer functions on 30 objects; (printer) rapid: one or two such bindings around a generated format call or a printer function; " +
 		"(package-grid) exhaustive: 60 calls that end in a condition of every standard class (type-error, undefined-function, unbound-variable, division-by-zero, program-error, parse-error, end-of-file, package-error, file-error, class-not-found, unbound-slot, no-applicable-method, print-not-readable, simple-error, warning ..) or a value x 16 current packages (one that uses only common-lisp, one that uses nothing, every package slip defines): the condition must be made whatever the current package sees; " +
+		"(call-1-in-package) the 0- and 1-tuples with the objects as arguments once more under another current package (uses only common-lisp / uses nothing / keyword, by function, argument and seed); " +
 		"(call-typed) rapid: any function with every documented parameter drawn from the value set of its documented type (1/10 from the pool instead), optional and keyword parameters given or not; " +
 		"(format) control strings over the directive alphabet incl. unbalanced and hostile ones (prefix parameters <= 10000, every ~{ with a repetition limit) x pool arguments, non-trivial with >= 1 directive that has a prefix parameter. " +
 		"Oracle: the outcome is a value, a partial read, or a condition of a registered class; it is a fault when the panic is a Go runtime error (nil dereference, index, slice bounds, type assertion, unhashable key, nil map, closed channel, makeslice, divide), a Go value that is not a Lisp object, an argument check of a library below slip, " +
@@ -461,6 +465,7 @@ func testCalls(t *testing.T, fns []FuncEntry) {
 	// witnesses (and replay) first
 	h.RunProp(t, call0, 0)
 	h.RunProp(t, call1, 0)
+	h.RunProp(t, call1p, 0)
 	h.RunProp(t, call2, 0)
 	calln.Run = runViaShared
 	h.RunProp(t, calln, 0)
@@ -510,6 +515,27 @@ func testCalls(t *testing.T, fns []FuncEntry) {
 	}
 	if part("c1") && drive(t, call1, u1, workersFor()) {
 		h.SetExhaustive(call1.Name)
+	}
+	// the same 0- and 1-tuples (objects as arguments) once more while another package is the current one: one that uses
+	// only common-lisp, one that uses nothing, or keyword, by (function, argument, seed)
+	if part("c1p") {
+		var u1p [][]Case
+		for ui, cs := range u1 {
+			var cp []Case
+			for ci, c := range cs {
+				if c.Mode != "q" {
+					continue
+				}
+				c.Pkg = gridPackages[(ui+ci+int(h.C.Seed))%3]
+				cp = append(cp, c)
+			}
+			for ci, c := range u0[ui] {
+				c.Pkg = gridPackages[(ui+ci+1+int(h.C.Seed))%3]
+				cp = append(cp, c)
+			}
+			u1p = append(u1p, cp)
+		}
+		drive(t, call1p, u1p, workersFor())
 	}
 
 	// 2-tuples: unit = (function, mode, first argument); thorough: all units split over the shards;
